@@ -195,6 +195,20 @@ def main(tier):
         if len(lines) == len(days):
             for l, got in zip(days, lines):
                 ev.append({"e": "Mil", "src": "dconv T24:00:00", "day": l, "res": parse_dt(ch, got.replace(" ", "T00:")), "out": got})
+        # the epoch value of a 24:00:00 reading, printed next to the hour it was written with (the formatter then keeps hour 24 instead of
+        # rolling the value over first): still the seconds of 00:00:00 of the following day
+        for mfmt, pick in (("%s %T", 0), ("%H %s", 1), ("%s", 0), ("%T @%s %F", 1)):
+            rc, lines, err = cc.tool_lines(dconv, ["-f", mfmt], minp)
+            nrun += 1
+            if len(lines) != len(days):
+                rep.disagree("cli dconv -f '%s' on 24:00:00: %d lines for %d inputs" % (mfmt, len(lines), len(days)), {"stderr": err[:200]})
+                continue
+            for l, got in zip(days, lines):
+                try:
+                    ed, es = split(int(got.split()[pick].lstrip("@")))
+                except (ValueError, IndexError):
+                    ed, es = 0, -1
+                ev.append({"e": "EpochOut", "src": "dconv T24:00:00 -f '%s'" % mfmt, "t": [l + 1, 0], "u0": U0, "ed": ed, "es": es, "out": got})
         rep.notes["tool_runs"] = nrun
         execs = [[e] for e in ev]
         cc.validate_and_report(rep, "ClockTrace", "ClockTrace.cfg", execs, lambda bad, e: ("cli dadd several durations" + (" after an offset shift" if "(input" in bad["src"] else ""))
